@@ -30,6 +30,7 @@ type layRow struct {
 	Ord    string `json:"ord"`
 	Mode   string `json:"mode"`
 	Expect int    `json:"expect"`
+	Later  int    `json:"later"`
 	Top    int    `json:"top"`
 }
 
@@ -66,7 +67,12 @@ func (e *eng) note(name string, r *core.TLCResult, what string) {
 func (e *eng) modelRows() []layRow {
 	var rows []layRow
 	var wg sync.WaitGroup
-	wg.Add(4)
+	wg.Add(5)
+	go func() {
+		defer wg.Done()
+		r := core.MustFail(e.env, core.TLCOpts{Module: "Layers", Config: "Layers_accumulate.cfg", Workers: 1})
+		e.note("Layers_accumulate", r, "negative control (a variation's values leak into later variations): "+r.Violated+" violated")
+	}()
 	go func() {
 		defer wg.Done()
 		r := core.MustHold(e.env, core.TLCOpts{Module: "LayersGen", Config: "LayersGen.cfg", Workers: 1})
@@ -152,9 +158,12 @@ func (e *eng) envCase(r layRow, i int) {
 		fmt.Fprintf(&y, "    env:\n      X: %s\n", yq(v(4)))
 	}
 	if r.has(6) {
-		fmt.Fprintf(&y, "    variations:\n      - X: %s\n", yq(v(6)))
+		// the second variation does not define X: it must see the lower levels only
+		fmt.Fprintf(&y, "    variations:\n      - X: %s\n        VN: \"1\"\n      - VN: \"2\"\n", yq(v(6)))
+	} else {
+		y.WriteString("    variations:\n      - VN: \"1\"\n")
 	}
-	y.WriteString("    command:\n      - echo \"OBS X=[$X] T=[$TASK_NAME] U=[$UNTOUCHED]\"\n")
+	y.WriteString("    command:\n      - echo \"OBS$VN X=[$X] T=[$TASK_NAME] U=[$UNTOUCHED]\"\n")
 	y.WriteString("pipelines:\n  p:\n    - task: t\n")
 	if r.has(5) {
 		fmt.Fprintf(&y, "      env:\n        X: %s\n", yq(v(5)))
@@ -185,10 +194,20 @@ func (e *eng) envCase(r layRow, i int) {
 		add("run-failed", fmt.Sprintf("taskctl exit %d", res.Exit))
 		return
 	}
-	obs, ok := find(res.Stdout, "OBS ")
+	obs, ok := find(res.Stdout, "OBS1 ")
 	if !ok {
 		add("no-output", "the command printed nothing")
 		return
+	}
+	if r.has(6) {
+		wantLater := ""
+		if r.Later != 0 {
+			wantLater = fmt.Sprintf("v%d", r.Later)
+		}
+		obs2, _ := find(res.Stdout, "OBS2 ")
+		if w2 := fmt.Sprintf("X=[%s] T=[t] U=[passthrough]", wantLater); obs2 != w2 {
+			add("value-of-an-earlier-variation-visible", fmt.Sprintf("in the second variation (which does not define X) the command saw %q, model %q", obs2, w2))
+		}
 	}
 	wantLine := fmt.Sprintf("X=[%s] T=[t] U=[passthrough]", want)
 	if obs != wantLine {
@@ -215,16 +234,21 @@ func (e *eng) dirCase(r layRow, sub bool) {
 		_ = os.MkdirAll(filepath.Join(d, x), 0o755)
 	}
 	var y strings.Builder
+	noCtx := !r.has(1) && sub // no context at all: the default context, which has no dir
 	if r.has(1) {
 		fmt.Fprintf(&y, "contexts:\n  ctx:\n    dir: %s\n", yq(filepath.Join(d, "d_ctx")))
-	} else {
+	} else if !noCtx {
 		y.WriteString("contexts:\n  ctx:\n    env:\n      Q: \"1\"\n")
 	}
-	y.WriteString("tasks:\n  t:\n    context: ctx\n")
+	y.WriteString("tasks:\n  t:\n")
+	if !noCtx {
+		y.WriteString("    context: ctx\n")
+	}
 	if r.has(2) {
 		y.WriteString("    dir: \"{{.Root}}/d_task\"\n")
 	}
-	y.WriteString("    before:\n      - echo \"OBS before=[$(pwd)]\"\n    command:\n      - echo \"OBS command=[$(pwd)]\"\n    after:\n      - echo \"OBS after=[$(pwd)]\"\n")
+	// an earlier command that changes directory must not move the later ones
+	y.WriteString("    before:\n      - cd / && echo moved\n      - echo \"OBS before=[$(/bin/pwd)]\"\n    command:\n      - cd / && echo moved\n      - echo \"OBS command=[$(/bin/pwd)]\"\n    after:\n      - cd / && echo moved\n      - echo \"OBS after=[$(/bin/pwd)]\"\n")
 	y.WriteString("pipelines:\n  p:\n    - task: t\n")
 	if r.has(3) {
 		fmt.Fprintf(&y, "      dir: %s\n", yq(filepath.Join(d, "d_stage")))
@@ -289,11 +313,12 @@ func (e *eng) varCase(r layRow, i int) {
 	if r.has(2) {
 		args = append(args, "--set", "w="+v(2))
 	}
-	target := "t"
 	if r.Mode == "stage" {
-		target = "p"
+		// the pipeline, then a direct run of the same task: the stage's variables must be gone
+		args = append(args, "p", "t")
+	} else {
+		args = append(args, "t")
 	}
-	args = append(args, target)
 	res := e.run(d, nil, args...)
 	dd, _ := filepath.EvalSymlinks(d)
 	detail := map[string]interface{}{"yaml": y.String(), "args": args, "stdout": res.Stdout, "stderr": tailS(res.Stderr, 500), "exit": res.Exit, "model": r}
@@ -304,25 +329,40 @@ func (e *eng) varCase(r layRow, i int) {
 		add("crash", "taskctl crashed or hung")
 		return
 	}
-	obs, ok := find(res.Stdout, "OBS ")
+	var obsAll []string
+	for _, l := range lines(res.Stdout) {
+		if k := strings.Index(l, "OBS "); k >= 0 {
+			obsAll = append(obsAll, l[k+4:])
+		}
+	}
+	line := func(x int) string {
+		return fmt.Sprintf("w=[v%d] root=[%s] tmp=[%s] args=[] list=[]", x, dd, os.TempDir())
+	}
+	var want []string
+	wantFail := false
 	if r.Expect == 0 {
-		// undefined at every effective level: the task must fail before the command executes
-		if res.Exit == 0 || ok {
-			add("undefined-variable-executed", fmt.Sprintf("w is undefined but the command ran (exit %d, output %q)", res.Exit, obs))
+		wantFail = true
+	} else {
+		want = append(want, line(r.Expect))
+		if r.Mode == "stage" {
+			if r.Later == 0 {
+				wantFail = true
+			} else {
+				want = append(want, line(r.Later))
+			}
 		}
-		return
 	}
-	if res.Exit != 0 || !ok {
-		add("run-failed", fmt.Sprintf("taskctl exit %d: %s", res.Exit, firstLine(res.Stderr)))
-		return
-	}
-	want := fmt.Sprintf("w=[v%d] root=[%s] tmp=[%s] args=[] list=[]", r.Expect, dd, os.TempDir())
-	if obs != want {
+	if strings.Join(obsAll, "\n") != strings.Join(want, "\n") || (res.Exit != 0) != wantFail {
 		kind := "wrong-level-wins"
-		if strings.HasPrefix(obs, fmt.Sprintf("w=[v%d]", r.Expect)) {
-			kind = "builtin-variable-wrong"
+		switch {
+		case len(obsAll) > len(want):
+			kind = "undefined-variable-executed"
+		case len(obsAll) == 2 && len(want) == 2 && obsAll[0] == want[0]:
+			kind = "stage-variable-visible-to-direct-run"
+		case len(obsAll) < len(want):
+			kind = "run-failed"
 		}
-		add(kind, fmt.Sprintf("command printed %q, model %q", obs, want))
+		add(kind, fmt.Sprintf("commands printed %q (exit %d), model %q (fails=%v)", obsAll, res.Exit, want, wantFail))
 	}
 	if i%20 == 3 {
 		e.samples.Add(map[string]interface{}{"kind": "var", "defs": r.Defs, "order": r.Ord, "mode": r.Mode, "expected": want})
@@ -330,11 +370,15 @@ func (e *eng) varCase(r layRow, i int) {
 }
 
 // undefined variable at command position k of a 3-command task
-func (e *eng) undefinedAt(k int) {
+func (e *eng) undefinedAt(k int, allow bool) {
 	d := e.env.Sub("undef")
 	trace := filepath.Join(d, "trace")
 	var y strings.Builder
-	y.WriteString("tasks:\n  t:\n    command:\n")
+	y.WriteString("tasks:\n  t:\n")
+	if allow {
+		y.WriteString("    allow_failure: true\n")
+	}
+	y.WriteString("    command:\n")
 	for c := 1; c <= 3; c++ {
 		if c == k {
 			fmt.Fprintf(&y, "      - echo \"c%d {{.nosuch}}\" >> %s\n", c, trace)
@@ -352,7 +396,7 @@ func (e *eng) undefinedAt(k int) {
 	}
 	if res.Exit == 0 || strings.Join(got, ",") != strings.Join(want, ",") {
 		e.rep.Add(core.Finding{Prop: "C10", Key: "C10:var:undefined-variable-executed",
-			What:   fmt.Sprintf("undefined variable in command %d of 3: commands that ran %v (model %v), exit %d (model non-zero)", k, got, want, res.Exit),
+			What:   fmt.Sprintf("undefined variable in command %d of 3 (allow_failure=%v): commands that ran %v (model %v), exit %d (model non-zero)", k, allow, got, want, res.Exit),
 			Detail: map[string]interface{}{"yaml": y.String(), "stderr": tailS(res.Stderr, 400)}})
 	}
 }
@@ -539,8 +583,9 @@ func CheckC10(env *core.Env, rep *core.Report) *core.Result {
 	var n int64
 	core.Parallel(len(varRows), 16, func(i int) { e.varCase(varRows[i], i); atomic.AddInt64(&n, 1) })
 	for k := 1; k <= 3; k++ {
-		e.undefinedAt(k)
-		n++
+		e.undefinedAt(k, false)
+		e.undefinedAt(k, true)
+		n += 2
 	}
 	core.Parallel(len(sel), 16, func(i int) {
 		form := "root"
@@ -716,11 +761,13 @@ func (e *eng) stageBin(c stgCase, i int) {
 			fmt.Fprintf(&y, "      dir: %s\n", yq(filepath.Join(d, fmt.Sprintf("d%d", s))))
 		}
 	}
+	// another pipeline whose only stage uses the same task without overrides
+	y.WriteString("  q:\n    - name: q1\n      task: t\n")
 	_ = ioutil.WriteFile(filepath.Join(d, "tasks.yaml"), []byte(y.String()), 0o644)
-	// the pipeline, then a direct run of the same task in the same process
+	// the pipeline, then another pipeline and a direct run of the same task in the same process
 	outdir := filepath.Join(d, "out")
 	_ = os.MkdirAll(outdir, 0o755)
-	res := e.run(d, []string{"OUTDIR=" + outdir}, "--raw", "p", "t")
+	res := e.run(d, []string{"OUTDIR=" + outdir}, "--raw", "p", "q", "t")
 	detail := map[string]interface{}{"yaml": y.String(), "stdout": res.Stdout, "stderr": tailS(res.Stderr, 500), "exit": res.Exit}
 	add := func(kind, what string) {
 		e.rep.Add(core.Finding{Prop: "C08", Key: "C08:bin:" + kind, What: what + fmt.Sprintf(" [overrides per stage %v, deps %v]", c.Ov, c.Deps), Detail: detail})
@@ -736,11 +783,13 @@ func (e *eng) stageBin(c stgCase, i int) {
 		got[en.Name()] = strings.TrimSpace(string(b))
 	}
 	detail["observed"] = got
-	for s := 0; s <= c.NS; s++ {
+	for s := -1; s <= c.NS; s++ {
 		name := fmt.Sprintf("s%d", s)
 		v, w, dir := "v0", "w0", "d0"
 		if s == 0 {
 			name = "direct"
+		} else if s == -1 {
+			name = "q1"
 		} else {
 			if hasS(c.Ov[s-1], "env") {
 				v = fmt.Sprintf("v%d", s)
@@ -757,6 +806,8 @@ func (e *eng) stageBin(c stgCase, i int) {
 			kind := "override-of-another-stage-visible"
 			if s == 0 {
 				kind = "direct-run-sees-stage-override"
+			} else if s == -1 {
+				kind = "another-pipeline-sees-stage-override"
 			}
 			add(kind, fmt.Sprintf("%s printed %q, model %q", name, got[name], want))
 		}
@@ -830,6 +881,17 @@ func CheckC08(env *core.Env, rep *core.Report) *core.Result {
 		}
 		cases = append(cases, c)
 	}
+	// a pipeline whose single stage is the only user of the task (8 override subsets)
+	single0 := len(cases)
+	for m := 0; m < 8; m++ {
+		var ov []string
+		for b, f := range []string{"env", "vars", "dir"} {
+			if m&(1<<uint(b)) != 0 {
+				ov = append(ov, f)
+			}
+		}
+		cases = append(cases, stgCase{NS: 1, Ov: [][]string{ov}, Deps: [][]int{nil}})
+	}
 	for i := range cases {
 		for s := range cases[i].Ov {
 			if cases[i].Ov[s] == nil {
@@ -844,7 +906,7 @@ func CheckC08(env *core.Env, rep *core.Report) *core.Result {
 	core.Parallel(len(cases), 32, func(i int) { e.stageAPI(cases[i], i); atomic.AddInt64(&n, 1) })
 	var bsel []int
 	for i := range cases {
-		if env.Thorough() && i%4 == 0 || !env.Thorough() && i%28 == 0 || i >= 4224 && i%3 == 0 {
+		if env.Thorough() && i%4 == 0 || !env.Thorough() && i%28 == 0 || i >= 4224 && i%3 == 0 || i >= single0 {
 			bsel = append(bsel, i)
 		}
 	}
